@@ -395,13 +395,17 @@ def splice_fn(repo, file, item_path, sections, trait=None, nth=0, opts=(), canar
         if toks[fci[q]].text != '(' or toks[fci[q + 1]].text != '|':
             raise AnchorLost('%s: //@lift_anchor is not followed by an inline closure' % item_path)
         q += 2
-        cparams = []
+        cparams, cpat = [], None
+        q0 = q
         while q < len(fci) and toks[fci[q]].text != '|':
-            if toks[fci[q]].kind != 'ident' and toks[fci[q]].text != ',':
-                raise AnchorLost('%s: lifted closure has a parameter pattern, not plain names' % item_path)
             if toks[fci[q]].kind == 'ident':
                 cparams.append(toks[fci[q]].text)
             q += 1
+        if any(toks[fci[j]].kind != 'ident' and toks[fci[j]].text != ',' for j in range(q0, q)):
+            # a parameter PATTERN (`|(_, matched)|`): the emitted function takes ONE parameter (first of //@lift_sig) and its body
+            # starts with `let PATTERN = that parameter;`
+            cpat = ''.join(toks[j].text for j in range(fci[q0], fci[q - 1] + 1))
+            cparams = []
         q += 1
         call_open = fci[hits[0] + len(want)]
         call_close = rs.match_close(toks, call_open)
@@ -424,13 +428,18 @@ def splice_fn(repo, file, item_path, sections, trait=None, nth=0, opts=(), canar
         if not msig:
             raise AnchorLost('%s: //@lift_sig is not `fn name(params) -> (r: T)`' % item_path)
         pnames = [x.split(':')[0].strip() for x in msig.group(2).split(',') if ':' in x]
+        if cpat is not None:
+            cpat = 'let %s = %s; ' % (cpat, pnames[0])
+            cparams = [pnames[0]]
         if pnames[:len(cparams)] != cparams:
             raise AnchorLost('%s: lifted closure takes |%s|, the unit declares (%s)' % (item_path, ', '.join(cparams), ', '.join(pnames)))
         body_words = set(toks[k].text for k in range(cl_open, cl_close + 1) if toks[k].kind == 'ident')
         for cap in pnames[len(cparams):]:
             if cap not in body_words:
                 raise AnchorLost('%s: lifted closure no longer mentions the captured `%s`' % (item_path, cap))
-        lift_info = (cl_open, cl_close, msig.group(1), sig, lift_braces)
+        if cpat is not None and not lift_braces:
+            ed.ins_after(cl_open, ' ' + cpat)
+        lift_info = (cl_open, cl_close, msig.group(1), sig, lift_braces, cpat)
         # (an expression body has no braces of its own: the rules that look strictly inside the body get the tokens around it)
         body_open, body_close = (cl_open, cl_close) if not lift_braces else (cl_open - 1, cl_close + 1)
         rules['X2g-lift'] = rules.get('X2g-lift', 0) + 1
@@ -898,7 +907,7 @@ def splice_fn(repo, file, item_path, sections, trait=None, nth=0, opts=(), canar
     if used:
         rules['X5-ghost'] = rules.get('X5-ghost', 0) + used
     if lift_info is not None:
-        cl_open, cl_close, lname, sig, lift_braces = lift_info
+        cl_open, cl_close, lname, sig, lift_braces, cpat = lift_info
         spec = sections.get('spec', '')
         if canary:
             spec = _add_false(spec)
@@ -906,7 +915,7 @@ def splice_fn(repo, file, item_path, sections, trait=None, nth=0, opts=(), canar
         lines, lmap = ed.render(cl_open, cl_close, file)
         hl = head.split('\n')
         if lift_braces:
-            hl = hl + ['{']
+            hl = hl + ['{' + (' ' + cpat if cpat else '')]
             lines, lmap = lines + ['}'], lmap + [None]
         lines = hl + lines
         lmap = [None] * len(hl) + lmap
@@ -1172,4 +1181,5 @@ def build(repo, template_path, canary=False) -> SpliceResult:
             i += 1
             continue
         raise AnchorLost('template: unknown directive //@%s (line %d)' % (d, i + 1))
+    dropped = list(dict.fromkeys(dropped))      # (a function spliced more than once — rule X2g — reports its rewritings once)
     return SpliceResult('\n'.join(out), lmap, functions, rules, dropped, canary_points)
